@@ -108,15 +108,15 @@ pub fn c11_scenario(seed: u64, idx: u64) -> Scenario {
         let origin: Option<String> = match rng.below(13) {
             0 => None,
             1 | 2 | 3 if !origins.is_empty() => Some(origins[rng.below(origins.len())].clone()),
-            4 if !origins.is_empty() => {
+            4 if !origins.is_empty() && origins.iter().all(|o| o.len() >= 4 && o.is_ascii()) => {
                 let o = &origins[rng.below(origins.len())];
                 Some(o[..rng.range(1, o.len() - 1)].to_string())
             }
-            5 if !origins.is_empty() => {
+            5 if !origins.is_empty() && origins.iter().all(|o| o.len() >= 4 && o.is_ascii()) => {
                 let o = &origins[rng.below(origins.len())];
                 Some(o[rng.range(1, o.len() - 1)..].to_string())
             }
-            6 if !origins.is_empty() => {
+            6 if !origins.is_empty() && origins.iter().all(|o| o.len() >= 5 && o.is_ascii()) => {
                 let o = &origins[rng.below(origins.len())];
                 let a = rng.range(1, o.len() - 2);
                 Some(o[a..rng.range(a + 1, o.len() - 1)].to_string())
